@@ -256,6 +256,16 @@ def check_per_world_scratch(res, db, lcs) -> int:
       first = sh.strip("()[] ").split(",")[0]
       n += 1
       ok = "nworld" in first or sh.endswith(".shape") or r.how in ("clone", "zeros_like", "empty_like", "ones_like", "full_like")
+      if not ok and r.src is not None:
+        # allocated like another array (zeros_like / empty_like / clone of a per-world Data field)
+        from ..hostir import Field
+
+        rs = root_array(r.src)
+        if isinstance(rs, Field):
+          spec = db.sm.schema_by_path.get((rs.owner, rs.path))
+          ok = spec is not None and spec.is_array and spec.first == "nworld"
+        elif isinstance(rs, Temp):
+          ok = True  # like another scratch array: that one is checked on its own
       res.ob(
         ok,
         f"{r.key}|per-world-scratch",
